@@ -208,10 +208,15 @@ fn main() {
         }
         // token_epp and constants
         for (t, r) in rt.token_epps() {
-            let ct = (f.token_epp)(t);
+            let tepp = f.token_epp;
             comparisons += 1;
-            if ct != r {
-                mismatches.push(json!({"id": id, "what": "token_epp differs", "token": t, "ct": ct, "rt": r}));
+            match guarded(move || tepp(t)) {
+                Ok(ct) => {
+                    if ct != r {
+                        mismatches.push(json!({"id": id, "what": "token_epp differs", "token": t, "ct": ct, "rt": r}));
+                    }
+                }
+                Err(msg) => mismatches.push(json!({"id": id, "what": "the generated token_epp panics", "token": t, "rt": r, "panic": msg})),
             }
         }
         for (name, v) in (f.rule_consts)() {
@@ -229,7 +234,14 @@ fn main() {
         let mut nontrivial = false;
         for inp in &inputs {
             set_hooks();
-            let ct = (f.parse)(inp);
+            let (parse, inp_owned) = (f.parse, inp.clone());
+            let ct = match guarded(move || parse(&inp_owned)) {
+                Ok(ct) => ct,
+                Err(msg) => {
+                    mismatches.push(json!({"id": id, "what": "the generated module panics", "input": inp, "panic": msg}));
+                    break;
+                }
+            };
             let ct_hit = cap_hit();
             set_hooks();
             let r = rt.parse(inp);
